@@ -25,7 +25,9 @@ BOUNDS = {
              'timestamps symbolic reals, on each of the 4 backends; plus two '
              'operation sequences of length 3 on different ids running in '
              'overlapping greenlets with every start offset (yielding '
-             'backends)',
+             'backends); load() overlapping at each of 16 offsets with '
+             'remove / write / set_timestamp / increment_attempts on another '
+             'of 3 stored messages',
     'thorough': 'sequences of 5 operations; overlapping sequences of '
                 'length 4',
 }
@@ -59,6 +61,8 @@ def cells(tier):
         if b != 'dict':
             out.append({'kind': 'overlap', 'backend': b,
                         'L': 3 if tier == 'quick' else 4})
+            out.append({'kind': 'loadrace', 'backend': b,
+                        'offsets': 16 if tier == 'quick' else 32})
     return out
 
 
@@ -238,6 +242,72 @@ def run_overlap(cell):
             api.fail('operation-raised', exc=type(g.exception).__name__,
                      msg=str(g.exception)[:200], **info)
         api.prove(g.ready(), 'operation-never-finished', **info)
+
+
+def run_loadrace(cell):
+    """load() overlapping, at every offset, with remove / write / metadata
+    update of ANOTHER message: the messages that stay live are all listed,
+    with their timestamps"""
+    import gevent
+    qc.fresh_hub()
+    qc.patch_env()
+    store, sub = qc.make_storage(cell['backend'])
+    info = dict(backend=cell['backend'], kind='loadrace')
+    ids = []
+    tss = []
+    state = {}
+
+    def prepare():
+        for k in range(3):
+            env = qc.make_envelope('m%d' % k, 's%d@z' % k, RC,
+                                   body=b'body\r\n')
+            ts = api.real('ts%d' % k, 1)
+            ids.append(store.write(env, ts))
+            tss.append(ts)
+    g = gevent.spawn(prepare)
+    qc.run_until_quiescent()
+    if g.exception is not None or len(ids) != 3:
+        api.fail('operation-raised', msg=str(g.exception)[:200], **info)
+        return
+    other = api.choice('other', 3)
+    what = api.choice('what', 4)
+    offset = api.choice('offset', cell['offsets'])
+
+    def disturb():
+        for _ in range(offset):
+            gevent.sleep(0)
+        if what == 0:
+            store.remove(ids[other])
+        elif what == 1:
+            env = qc.make_envelope('new', 'n@z', RC, body=b'new\r\n')
+            store.write(env, 5)
+        elif what == 2:
+            store.set_timestamp(ids[other], 7)
+        else:
+            store.increment_attempts(ids[other])
+
+    def lister():
+        state['got'] = list(store.load())
+    gs = [gevent.spawn(lister), gevent.spawn(disturb)]
+    qc.run_until_quiescent()
+    for g in gs:
+        if g.exception is not None:
+            api.fail('operation-raised', exc=type(g.exception).__name__,
+                     msg=str(g.exception)[:200], **info)
+            return
+    info.update(what=['remove', 'write', 'set_timestamp',
+                      'increment_attempts'][what], offset=offset)
+    got = state.get('got')
+    if not api.prove(got is not None, 'operation-never-finished', **info):
+        return
+    api.observe('listed', sorted(i for _, i in got))
+    for k in range(3):
+        if k == other:
+            continue
+        mine = [t for t, i in got if i == ids[k]]
+        if api.prove(len(mine) == 1, 'load-lists-wrong-ids', missing=k,
+                     other=other, **info):
+            api.prove(mine[0] == tss[k], 'load-stale-timestamp', **info)
 
 
 def classify(cell, inputs, failure):
